@@ -366,6 +366,45 @@ CORPUS["C07"] += [
     E("corner triangle through abs of the signed helper", (UTIL, "            triangle_area, is_convex = get_convex_polygon_area(\n                np.concatenate([midpoints, [sites[site]]], axis=0)\n            )\n            assert is_convex  # This is just a triangle, so it must be convex.\n            areas[site] -= triangle_area", "            corner = np.array([midpoints[0], sites[site], midpoints[1]])\n            areas[site] -= abs(triangle_areas(corner, np.array([[0, 1, 2]]))[0])")),
 ]
 
+
+# variants for the aliasing / effect rules added after the second round of seeded changes --------------------------------
+JS_LINE = "        return (psi.conjugate()[self.edges[:, 0]] * (self.psi_gradient @ psi)).imag"
+JS_BUF = (OPS, JS_LINE, "        if getattr(self, \"_js_buf\", None) is None:\n            self._js_buf = np.empty(len(self.edges), dtype=complex)\n        np.multiply(psi.conjugate()[self.edges[:, 0]], self.psi_gradient @ psi, out=self._js_buf)\n        return self._js_buf.imag")
+JS_LOCAL = (OPS, JS_LINE, "        js = psi.conjugate()[self.edges[:, 0]] * (self.psi_gradient @ psi)\n        return js.imag")
+JS_COPY = (OPS, JS_LINE, "        if getattr(self, \"_js_buf\", None) is None:\n            self._js_buf = np.empty(len(self.edges), dtype=complex)\n        np.multiply(psi.conjugate()[self.edges[:, 0]], self.psi_gradient @ psi, out=self._js_buf)\n        return self._js_buf.imag.copy()")
+A_INPLACE = (SOLVER, "        A_induced = A_induced + velocity[-1]\n", "        A_induced += velocity[-1]\n")
+DA_COPY = (SOLVER, "        dA = new_A_induced - A_induced\n", "        dA = new_A_induced.copy()\n        dA -= A_induced\n")
+SQ_CACHED = [(SOLVER, "        old_sq_psi = xp.absolute(psi) ** 2\n", "        old_sq_psi = getattr(self, \"_abs_sq_psi\", None)\n        if old_sq_psi is None:\n            old_sq_psi = xp.absolute(psi) ** 2\n"),
+             (SOLVER, "            # Update the scalar potential, supercurrent density, and normal current density\n", "            self._abs_sq_psi = abs_sq_psi\n            # Update the scalar potential, supercurrent density, and normal current density\n")]
+MU_CACHED = [(SOLVER, "        old_sq_psi = xp.absolute(psi) ** 2\n", "        old_sq_psi = xp.absolute(psi) ** 2\n        if self.last_mu is not None:\n            mu = self.last_mu\n"),
+             (SOLVER, "        running_state.append(\"dt\", dt)\n", "        running_state.append(\"dt\", dt)\n        self.last_mu = mu\n"),
+             (SOLVER, "        operators.build_operators()\n        operators.set_link_exponents(current_A_applied)\n", "        operators.build_operators()\n        operators.set_link_exponents(current_A_applied)\n        self.last_mu = None\n")]
+N_COUNTER = [(SOLVER, "        running_state.append(\"dt\", dt)\n", "        running_state.append(\"dt\", dt)\n        self.n_updates = getattr(self, \"n_updates\", 0) + 1\n")]
+TRANSLATE_OLD = "            points = device.points\n            points += np.array([[dx, dy]])\n            device._create_dimensionless_mesh(points, device.triangles)"
+MESH_SHIFT = (DEVICE, TRANSLATE_OLD, "            device.mesh.sites += np.array([[dx, dy]]) / device.coherence_length.magnitude")
+MESH_SHIFT_X = (DEVICE, TRANSLATE_OLD, "            xs, ys = device.mesh.x, device.mesh.y\n            xs += dx / device.coherence_length.magnitude\n            ys += dy / device.coherence_length.magnitude")
+MESH_REBIND = (DEVICE, TRANSLATE_OLD, "            mesh = device.mesh\n            mesh.sites = mesh.sites + np.array([[dx, dy]]) / device.coherence_length.magnitude")
+TRANSLATE_FRESH = (DEVICE, TRANSLATE_OLD, "            points = device.points + np.array([[dx, dy]])\n            device._create_dimensionless_mesh(points, device.triangles)")
+SMOOTH_INPLACE = [(MESH, "            # reset boundary points\n            new_sites[boundary] = sites[boundary]\n", "            # keep boundary points\n            interior = np.setdiff1d(np.arange(n), boundary)\n            sites[interior] = new_sites[interior]\n            new_sites = sites\n")]
+NONE_LINKS = (SOLVER, "        operators.build_operators()\n        operators.set_link_exponents(current_A_applied)\n", "        operators.build_operators()\n        operators.set_link_exponents(current_A_applied if np.any(current_A_applied) else None)\n")
+NONE_LINKS_VIA = (SOLVER, "        operators.build_operators()\n        operators.set_link_exponents(current_A_applied)\n", "        operators.build_operators()\n        A0 = None if not self.dynamic_vector_potential and not np.any(current_A_applied) else current_A_applied\n        operators.set_link_exponents(A0)\n")
+ZERO_IS_NONE = [(OPS, "    if link_exponents is None:\n        link_variable_weights = np.ones(len(weights))\n    else:\n        link_variable_weights = np.exp(\n            -1j * np.einsum(\"ij, ij -> i\", link_exponents, edge_mesh.directions)\n        )\n    rows = np.concatenate([edge_indices, edge_indices])", "    if link_exponents is None or not np.any(link_exponents):\n        link_variable_weights = np.ones(len(weights))\n    else:\n        link_variable_weights = np.exp(\n            -1j * np.einsum(\"ij, ij -> i\", link_exponents, edge_mesh.directions)\n        )\n    rows = np.concatenate([edge_indices, edge_indices])")]
+CORPUS["C01"] += [B("supercurrent returned as a view of a reused buffer", "R01.7", JS_BUF), E("supercurrent through a local", JS_LOCAL), E("reused buffer, result copied out", JS_COPY)]
+CORPUS["C11"] += [B("supercurrent returned as a view of a reused buffer", "R11.6", JS_BUF), B("Polyak update in place", "R11.7", A_INPLACE),
+                  B("|psi|^2 remembered from the previous call", "R11.8", *SQ_CACHED), B("mu remembered from the previous call", "R11.8", *MU_CACHED),
+                  E("update counter kept on the solver", *N_COUNTER), E("difference computed in a fresh copy", DA_COPY), E("supercurrent through a local", JS_LOCAL)]
+CORPUS["C15"] += [B("supercurrent returned as a view of a reused buffer", "R15.6", JS_BUF), B("Polyak update in place", "R15.7", A_INPLACE), E("reused buffer, result copied out", JS_COPY)]
+CORPUS["C09"] += [B("Polyak update in place", "R09.6", A_INPLACE), E("difference computed in a fresh copy", DA_COPY)]
+CORPUS["C02"] += [B("|psi|^2 remembered from the previous call", "R02.7", *SQ_CACHED), E("update counter kept on the solver", *N_COUNTER)]
+CORPUS["C03"] += [B("smoothing relaxes the vertices of the mesh it was called on", "R03.8", *SMOOTH_INPLACE), B("translate shifts the shared mesh in place", "R03.8", MESH_SHIFT),
+                  E("translate builds the shifted points without +=", TRANSLATE_FRESH)]
+CORPUS["C07"] += [B("translate shifts the shared mesh in place", "R07.5", MESH_SHIFT), B("translate shifts the mesh through its x/y views", "R07.5", MESH_SHIFT_X),
+                  B("translate rebinds mesh.sites", "R07.5", MESH_REBIND), E("translate builds the shifted points without +=", TRANSLATE_FRESH)]
+CORPUS["C18"] += [B("translate shifts the shared mesh in place", "R18.6", MESH_SHIFT), E("translate builds the shifted points without +=", TRANSLATE_FRESH)]
+CORPUS["C10"] += [B("zero potential treated like no potential in the gradient builder", "R10.1", *ZERO_IS_NONE), B("solver builds link-free operators for zero field", "R10.7", NONE_LINKS),
+                  B("solver builds link-free operators for zero field (through a local)", "R10.7", NONE_LINKS_VIA)]
+CORPUS["C04"] += [B("solver builds link-free operators for zero field", "R04.6", NONE_LINKS)]
+
 # ---------------------------------------------------------------------------
 # generic behaviour-preserving transformations of the anchor functions
 # ---------------------------------------------------------------------------
